@@ -2,11 +2,13 @@
 from __future__ import annotations
 
 import itertools
+import os
+import random
 
 from .. import core
 from ..core import Prop, Violation
 from ._coord import (CoordMixin, Impl, gen_multi_kill, gen_cycled_ring, gen_ring_again, gen_long_gaps,
-                     gen_boost_inversion, pint, gen_prio)
+                     gen_boost_inversion, pint, gen_prio, gen_long_history)
 
 FINDING = "C15-edges-dropped-on-progress"
 EXCUSABLE = {"exact_missed_deadlock", "exact_phantom_deadlock", "reported_members_really_wait"}   # never: acquire_result_matches_lock, victim / handling clauses
@@ -108,6 +110,11 @@ class C15(CoordMixin, Prop):
             yield gen_long_gaps(rng)
         for i in range(max(60, n // 20)):
             yield gen_boost_inversion(rng)
+        # long histories: drawn from a generator of their own (derived from the seed) so that the streams before and after
+        # them are what they were
+        lrng = random.Random(f"long-{os.environ.get('VERIF_SEED', '0')}-{tier}")
+        for i in range(2 if tier == "quick" else 12):
+            yield gen_long_history(lrng, 40 if tier == "quick" else lrng.choice([40, 80, 150]))
         # preemption, then the loser asks again for what it lost, then the winner asks for something the loser holds
         for i in range(max(20, n // 40)):
             pa, pb = rng.choice([(1, 5), (0, 1), (2, 3), (3, 3), (4, 2)])
